@@ -561,4 +561,101 @@ theorem segUpdate_eq_snodeBlock' (cplx : Bool) (lsub : Array Nat) (g : Seg) (lus
 
 end sched
 
+/-! ### the tail for every `fpanelc` (the panel may start inside `jcol`'s own supernode) -/
+
+theorem colTail_spec' (cplx : Bool) (jcol fpanelc : Nat) (xsup supno lsub xlsub : Array Nat) (st : SnodeSt K)
+    (fsupc fstCol d istart nsupr ucol luptr nsupc : Nat)
+    (e0 : fsupc = xsup[supno[jcol]!]!) (ef : fstCol = max fsupc fpanelc) (ed : d = fstCol - fsupc)
+    (e1 : istart = xlsub[fsupc]!) (e2 : nsupr = xlsub[fsupc + 1]! - istart)
+    (e3 : ucol = st.xlusup[jcol]!) (e4 : luptr = st.xlusup[fstCol]! + d) (e5 : nsupc = jcol - fstCol)
+    (hle : fstCol ≤ jcol)
+    (hinj : ∀ t u, t < nsupr → u < nsupr → lsub[istart + t]! = lsub[istart + u]! → t = u)
+    (hrow : ∀ t, t < nsupr → lsub[istart + t]! < st.dense.size)
+    (hcol : ucol + nsupr ≤ st.lusup.size) (hwid : d + nsupc ≤ nsupr)
+    (hbefore : luptr + nsupc * nsupr ≤ ucol + d)
+    (htv : nsupr - d - nsupc ≤ st.tempv.size) (htz : ∀ i, i < nsupr - d - nsupc → st.tempv[i]! = 0)
+    (z : Nat → K)
+    (hz : ∀ i, i < nsupc → z i = st.dense[lsub[istart + (d + i)]!]! - ∑ j ∈ range i, z j * st.lusup[luptr + (j * nsupr + i)]!) :
+    (colTail cplx jcol fpanelc xsup supno lsub xlsub st).lusup.size = st.lusup.size ∧
+    (∀ t, t < d → (colTail cplx jcol fpanelc xsup supno lsub xlsub st).lusup[ucol + t]! = st.dense[lsub[istart + t]!]!) ∧
+    (∀ t, t < nsupc → (colTail cplx jcol fpanelc xsup supno lsub xlsub st).lusup[ucol + (d + t)]! = z t) ∧
+    (∀ i, d + nsupc ≤ i → i < nsupr → (colTail cplx jcol fpanelc xsup supno lsub xlsub st).lusup[ucol + i]! =
+      st.dense[lsub[istart + i]!]! - ∑ r ∈ range nsupc, st.lusup[luptr + (r * nsupr + (i - d))]! * z r) ∧
+    (∀ p, (p < ucol ∨ ucol + nsupr ≤ p) → (colTail cplx jcol fpanelc xsup supno lsub xlsub st).lusup[p]! = st.lusup[p]!) ∧
+    (colTail cplx jcol fpanelc xsup supno lsub xlsub st).dense.size = st.dense.size ∧
+    (∀ t, t < nsupr → (colTail cplx jcol fpanelc xsup supno lsub xlsub st).dense[lsub[istart + t]!]! = 0) ∧
+    (∀ r, (∀ t, t < nsupr → lsub[istart + t]! ≠ r) → (colTail cplx jcol fpanelc xsup supno lsub xlsub st).dense[r]! = st.dense[r]!) ∧
+    (colTail cplx jcol fpanelc xsup supno lsub xlsub st).tempv.size = st.tempv.size ∧
+    (∀ i : Nat, (colTail cplx jcol fpanelc xsup supno lsub xlsub st).tempv[i]! = st.tempv[i]!) ∧
+    (colTail cplx jcol fpanelc xsup supno lsub xlsub st).xlusup = st.xlusup.setIfInBounds (jcol + 1) (ucol + nsupr) := by
+  have hX : ∀ v : Nat, (st.xlusup.setIfInBounds (jcol + 1) v)[fstCol]! = st.xlusup[fstCol]! ∧
+      (st.xlusup.setIfInBounds (jcol + 1) v)[jcol]! = st.xlusup[jcol]! := by
+    intro v
+    constructor <;> rw [getElem!_setIfInBounds, if_neg (by omega)]
+  obtain ⟨s1, s2, s3, s4, s5⟩ := snodeScatter_spec lsub istart nsupr ucol st.lusup st.dense hinj hrow nsupr (le_refl _)
+  have hcell : ∀ i, i < nsupr → (snodeScatter lsub istart nsupr ucol st.lusup st.dense).1[ucol + i]! = st.dense[lsub[istart + i]!]! := by
+    intro i hi
+    rw [s3, if_pos ⟨by omega, by omega, by omega⟩, Nat.add_sub_cancel_left]
+  have hout : ∀ p, (p < ucol ∨ ucol + nsupr ≤ p) → (snodeScatter lsub istart nsupr ucol st.lusup st.dense).1[p]! = st.lusup[p]! := by
+    intro p hp
+    rw [s3, if_neg (by omega)]
+  have hblk : ∀ j i, j < nsupc → i + d < nsupr → luptr + (j * nsupr + i) < ucol := by
+    intro j i hj hi
+    have := idx_lt j (i + d) nsupc nsupr hj hi
+    omega
+  unfold colTail
+  dsimp only
+  rw [← e0, ← ef, ← ed, (hX _).1, (hX _).2, ← e1, ← e2, ← e3, ← e4, ← e5]
+  generalize snodeScatter lsub istart nsupr ucol st.lusup st.dense = P at s1 s2 s3 s4 s5 hcell hout
+  by_cases hlt : fstCol < jcol
+  · rw [if_pos hlt]
+    dsimp only
+    obtain ⟨l1, l2, l3⟩ := lsolveG_spec cplx nsupr nsupc (fun s i => s[luptr + i]!) (ucol + d) P.1
+      (fun i j => st.lusup[luptr + (j * nsupr + i)]!) z (by omega)
+      (fun s hs i j hji hi => by
+        have hlt := hblk j i (by omega) (by omega)
+        rw [hs.2 _ (Or.inl (by omega)), hout _ (Or.inl (by omega))])
+      (fun i hi => by rw [Nat.add_assoc, hcell (d + i) (by omega)]; exact hz i hi)
+    have hA : lsolveA cplx nsupr nsupc P.1 luptr (ucol + d) = lsolveG cplx nsupr nsupc (fun s i => s[luptr + i]!) P.1 (ucol + d) := rfl
+    rw [hA]
+    generalize lsolveG cplx nsupr nsupc (fun s i => s[luptr + i]!) P.1 (ucol + d) = L1 at l1 l2 l3
+    obtain ⟨m1, m2, m3⟩ := matvec_spec' cplx nsupr (nsupr - d - nsupc) nsupc L1 (luptr + nsupc) L1 (ucol + d) st.tempv htv
+    have m2' : ∀ k, k < nsupr - d - nsupc → (matvec cplx nsupr (nsupr - d - nsupc) nsupc L1 (luptr + nsupc) L1 (ucol + d) st.tempv)[k]! =
+        ∑ r ∈ range nsupc, st.lusup[luptr + (r * nsupr + (nsupc + k))]! * z r := by
+      intro k hk
+      rw [m2 k hk, htz k hk, zero_add]
+      apply Finset.sum_congr rfl
+      intro r hr
+      have hr' := mem_range.mp hr
+      have hlt := hblk r (nsupc + k) hr' (by omega)
+      have e : luptr + nsupc + (r * nsupr + k) = luptr + (r * nsupr + (nsupc + k)) := by omega
+      rw [l2 r hr', e, l3 _ (Or.inl (by omega)), hout _ (Or.inl (by omega)), mul_comm]
+    generalize matvec cplx nsupr (nsupr - d - nsupc) nsupc L1 (luptr + nsupc) L1 (ucol + d) st.tempv = T1 at m1 m2 m3 m2'
+    obtain ⟨u1, u2, u3, u4⟩ := snodeUnload_spec (ucol + d + nsupc) L1 T1 (nsupr - d - nsupc)
+    generalize snodeUnload (ucol + d + nsupc) (nsupr - d - nsupc) L1 T1 = Q at u1 u2 u3 u4
+    refine ⟨by rw [u1, l1, s1], fun t ht => ?_, fun t ht => ?_, fun i hi hin => ?_, fun p hp => ?_, s2, s4, s5,
+      by rw [u2, m1], fun i => ?_, rfl⟩
+    · rw [u3, if_neg (by omega), l3 _ (Or.inl (by omega)), hcell t (by omega)]
+    · rw [u3, if_neg (by omega), ← Nat.add_assoc]; exact l2 t ht
+    · rw [u3, if_pos ⟨by omega, by omega, by omega⟩, l3 _ (Or.inr (by omega)), hcell i hin,
+        show ucol + i - (ucol + d + nsupc) = i - d - nsupc by omega, m2' _ (by omega),
+        show nsupc + (i - d - nsupc) = i - d by omega]
+    · rw [u3, if_neg (by omega), l3 p (by omega), hout p hp]
+    · rw [u4]
+      by_cases hc : i < nsupr - d - nsupc ∧ i < T1.size
+      · rw [if_pos hc, htz i hc.1]
+      · rw [if_neg hc]
+        by_cases hi : i < nsupr - d - nsupc
+        · have : T1.size ≤ i := by omega
+          simp only [Array.getElem!_eq_getD, Array.getD_eq_getD_getElem?]
+          rw [Array.getElem?_eq_none this, Array.getElem?_eq_none (by omega)]
+        · exact m3 i (by omega)
+  · rw [if_neg hlt]
+    dsimp only
+    have h0 : nsupc = 0 := by omega
+    subst h0
+    refine ⟨s1, fun t ht => hcell t (by omega), fun t ht => absurd ht (by omega), fun i _ hin => ?_, hout, s2, s4, s5, rfl,
+      fun _ => rfl, rfl⟩
+    rw [hcell i hin]; simp
+
 end Slu.ColBmod
